@@ -98,7 +98,18 @@ pub fn gen(prop: &str, seed: u64, tier: Tier, r: u64) -> Case {
             }
         }
         "C08" => Case::Bvm(bvm::gen_case(rs, tier)),
-        "C09" => Case::Pf(pf::gen_case(rs, tier)),
+        "C09" => {
+            // the first runs are the largest ones (every build profile re-runs a prefix of the run indices)
+            let huge = match tier {
+                Tier::Quick => 16,
+                Tier::Thorough => 200,
+            };
+            if r < huge {
+                Case::Pf(pf::gen_huge_case(rs, tier))
+            } else {
+                Case::Pf(pf::gen_case(rs, tier))
+            }
+        }
         "C11" => Case::Ser(ser::gen_case(rs, tier)),
         "C12" => Case::Iter(iters::gen_case(rs, tier)),
         "C13" => Case::Qvb(qvb::gen_case(rs, tier)),
